@@ -48,9 +48,9 @@ Definition c12_ok (c:c12_case) : bool :=
 Definition P := SPrim. Definition Rf (op:bool) (path:list name) (app ctx:option name) := SRef op {| r_path := path; r_app := app; r_ctx := ctx |}.
 Definition SP (n:name) (b:bool) (t:sty) := {| sp_name := n; sp_body := b; sp_ty := t |}.
 Definition QP (n:name) (t:sty) := {| q_name := n; q_ty := t |}.
-Definition RT (n:name) (ok:bool) (a:option Z) (s:rshape) := {| rt_name := n; rt_isok := ok; rt_atoi := a; rt_shape := s |}.
+Definition RT (bare:bool) (n:name) (ok:bool) (a:option Z) (s:rshape) := {| rt_bare := bare; rt_name := n; rt_isok := ok; rt_atoi := a; rt_shape := s |}.
 Definition EP (k:ekey) ps qs us rs := {| e_key := k; e_params := ps; e_query := qs; e_url := us; e_rets := rs |}.
-Definition AP (n:name) ts es := {| a_name := n; a_types := ts; a_endpoints := es |}.
+Definition AP (n n200:name) ts es := {| a_name := n; a_n200 := n200; a_types := ts; a_endpoints := es |}.
 Definition OP (n:name) (i:string) (r:bool) (s:schema) := {| op_name := n; op_in := i; op_required := r; op_schema := s |}.
 Definition OB (r:bool) (s:option schema) := {| ob_required := r; ob_schema := s |}.
 Definition OPN ps b rs := {| o_params := ps; o_body := b; o_resps := rs |}.
